@@ -446,8 +446,9 @@ def run_mk(ctx, R, cases):
         if nlib < 0 or head[nlib:] != ds:
             ctx.violation("markers in the stream differ from the markers written", {"case": c}, signature="marker-stream-differs")
         meta.append((ci, "emit", b"".join(seg_bytes(*s) for s in head[max(nlib, 0):])))
-        hl.append("-"); ml.append("mapi " + ",".join("%d:%s" % (code, d.hex()) for code, d in ds))
-        meta.append((ci, "emit", b"".join(seg_bytes(*s) for s in head[max(nlib, 0):])))
+        if sum(len(d) for _, d in ds) < 3000:      # the model appends byte by byte
+            hl.append("-"); ml.append("mapi " + ",".join("%d:%s" % (code, d.hex()) for code, d in ds))
+            meta.append((ci, "emit", b"".join(seg_bytes(*s) for s in head[max(nlib, 0):])))
         cfgs = ",".join("%d:%d" % (a, b) for a, b in c["cfg"])
         line = "rd %s %s" % (cfgs, jpg.hex())
         hl.append(line); ml.append(line)
